@@ -18,7 +18,10 @@ Inductive case :=
 | KQueryRange (text : bytes) (times : list (bytes * option Z)) (stored : list ev3) (lo hi : Z) (returned : option (list ev3))
 (* SELECT FROM {p} WHERE e POSITION tail OFFSET -n (n <= number of matching events): the cursor walks the filter
    iterator backward over n matching events and reads forward from there: the last n events of the filtered result *)
-| KQueryTail (text : bytes) (times : list (bytes * option Z)) (stored : list ev3) (n : nat) (returned : option (list ev3)).
+| KQueryTail (text : bytes) (times : list (bytes * option Z)) (stored : list ev3) (n : nat) (returned : option (list ev3))
+(* the request carries Offset k >= 0 and Limit n: the cursor steps over k matching events and delivers at most n: events
+   k .. k+n-1 of the filtered result *)
+| KQuerySlice (text : bytes) (times : list (bytes * option Z)) (stored : list ev3) (k n : nat) (returned : option (list ev3)).
 
 Definition wres_eqb (a b : wres) : bool :=
   match a, b with WTrue, WTrue | WFalse, WFalse | WPanic, WPanic => true | _, _ => false end.
@@ -101,6 +104,8 @@ Definition check (c : case) : bool :=
       option_eqb (list_eqb ev3_eqb) (proj3 (run_query_range text times stored lo hi)) returned
   | KQueryTail text times stored n returned =>
       option_eqb (list_eqb ev3_eqb) (proj3 (option_map (lastn n) (run_query text times stored))) returned
+  | KQuerySlice text times stored k n returned =>
+      option_eqb (list_eqb ev3_eqb) (proj3 (option_map (fun l => firstn n (skipn k l)) (run_query text times stored))) returned
   end.
 
 Definition mismatches (l : list case) : list nat := mismatches_of check l.
